@@ -6,4 +6,6 @@
 package cache
 
 //@ func makeKey
+//@   inline
+//@   exact_strings
 //@   ensures [C22.shape.cacheKey] result == c22CacheKey(topic, fmtd(partition), fmtd(baseOffset))
